@@ -347,3 +347,13 @@ func (d *pbDecoder) decode(t types.Type) Value {
 	x.unsupported("proto.Unmarshal: field type %s", t)
 	return nil
 }
+
+// isNoopPkg reports whether path is one of the packages whose functions are no-ops.
+func (e *Engine) isNoopPkg(path string) bool {
+	for _, pre := range e.noopPkgs {
+		if path == pre || (len(path) > len(pre) && path[:len(pre)] == pre && path[len(pre)] == '/') {
+			return true
+		}
+	}
+	return false
+}
